@@ -59,6 +59,18 @@ def live_history(k, a, steps):
         if st[0] == 'peek':
             try: A.degree; A.dim
             except Exception: pass
+        elif st[0] in ('split', 'pack'):
+            from crysp.bits import pack as _pack
+            if st[0] == 'split':
+                e = dict(op='split', k=k, l=[], k2=st[1], be=st[2], live='l')
+                ev.append(rec(e, lambda: A.split(st[1], st[2]), [A], k, render=lambda r: penc(r, st[1])))
+            else:
+                ev.append(rec(dict(op='pack', k=k, l=[], live='l'), lambda: _pack(A), [A], k, render=lambda r: list(r)))
+        elif st[0] == 'setdim':
+            e = dict(op='set_dim', n=st[1], k=k, raised='')
+            try: A.dim = st[1]
+            except Exception as ex: e['raised'] = type(ex).__name__
+            e['obj'] = penc(A, k); e['others_unchanged'] = True; ev.append(e)
         elif st[0] in OPS:
             Bp = mkp(st[1], k); side = st[2]
             e = dict(op=st[0], k=k, l=[] if side == 'l' else venc(st[1], k), r=venc(st[1], k) if side == 'l' else [], live=side)
@@ -169,6 +181,11 @@ def run(ctx):
                 b1 = [top] * (d + 1); b2 = [rnd.randrange(top + 1) for _ in range(d)]
                 for op in ('and', 'or', 'xor', 'add', 'sub'):
                     hist.append(live_history(k, a, [('peek',), (op, b1, 'l'), ('set', d - 1, top), (op, b1, 'l'), (op, b2, 'r'), ('set', 0, 0), ('peek',), ('set', -1, 0), (op, b1, 'r'), (op, b2, 'l')]))
+    for k, k2 in ((8, 4), (16, 8), (32, 8), (64, 16)):                  # re-chunking and packing of ONE object across dimension changes and assignments
+        for be in (False, True):
+            a = [rnd.getrandbits(k) for _ in range(4)]
+            hist.append(live_history(k, a, [('split', k2, be), ('pack',), ('setdim', 2), ('split', k2, be), ('pack',), ('setdim', 6), ('split', k2, be), ('pack',),
+                                            ('set', 5, (1 << k) - 1), ('split', k2, be), ('pack',), ('setdim', 1), ('pack',), ('split', k2, be)]))
     for t in hist: ctx.mark(('live', str(t['obj0']), t['ev'][0]['op'], t['ev'][0]['k']))
     validate_traces(ctx, hist, 'histories on one object')
     if big:
